@@ -356,6 +356,18 @@ Example C08_pure_needs_versioning :
   /\ resolve_decide caches_empty [e'] deny_all (MKeyWrite "a") = Some Allow.
 Proof. vm_compute. split; reflexivity. Qed.
 
+(* ... and so is its second half (the content hash determines the rules): with two different
+   policies under one hash the parsed-policy cache serves the first one for both.  The real
+   ACLPolicy.SetHash concatenates name, description and rules without delimiters, so such pairs
+   exist without any hash collision (open finding content-hash-concatenation-ambiguity). *)
+Example C08_pure_needs_hash_determines_rules :
+  let e := PEntry 1 1 11 true (p_key "a" (PCanon LRead)) in
+  let e' := PEntry 2 1 11 true (p_key "a" (PCanon LWrite)) in
+  let c := fst (compile caches_empty [e]) in
+  resolve_decide c [e'] deny_all (MKeyWrite "a") = Some Deny
+  /\ resolve_decide caches_empty [e'] deny_all (MKeyWrite "a") = Some Allow.
+Proof. vm_compute. split; reflexivity. Qed.
+
 Print Assumptions C08_semantics.
 Print Assumptions C08_valid_is_levelled.
 Print Assumptions C08_mixed_case_example.
@@ -386,3 +398,4 @@ Print Assumptions C08_token_example.
 Print Assumptions C08_levelled_example.
 Print Assumptions C08_pure_example.
 Print Assumptions C08_pure_needs_versioning.
+Print Assumptions C08_pure_needs_hash_determines_rules.
